@@ -361,9 +361,31 @@ public:
         std::vector<std::string> switch_cases;
         switch_cases.reserve(e.valid_values.size());
         const auto& context = ctx_manager->get(e);
+        // enumerators can share a value but `case` labels can't, the first
+        // enumerator of a value represents it
+        std::unordered_set<std::string> visited_values;
 
         for(const auto& valid_value : e.valid_values)
         {
+            auto normalized_value = valid_value.value;
+            if(context.underlying_type != "char")
+            {
+                normalized_value =
+                    utils::strip_leading_zeros(normalized_value);
+                if(!normalized_value.empty() && (normalized_value[0] == '+'))
+                {
+                    normalized_value.erase(0, 1);
+                }
+                if(normalized_value == "-0")
+                {
+                    normalized_value = "0";
+                }
+            }
+            if(!visited_values.insert(normalized_value).second)
+            {
+                continue;
+            }
+
             switch_cases.push_back(
                 fmt::format(
                     // clang-format off
